@@ -327,3 +327,86 @@ package bchutil
 //@   modifies b.serializedBlock
 //@   assert after Bytes#1: true
 //@   assert after DeserializeTxLoc#1: true
+
+//@ func bchutil.newAddressPubKeyHash
+//@   requires net != nil
+//@   ensures len(pkHash) != 20 ==> result0 == nil && err != nil
+//@   ensures len(pkHash) == 20 ==> err == nil && result0 != nil && fresh(result0) && sameobj(result0.prefix, net.CashAddressPrefix) && result0.prefix.off == net.CashAddressPrefix.off && len(result0.prefix) == len(net.CashAddressPrefix)
+//@   ensures len(pkHash) == 20 ==> forall k :: 0 <= k && k < 20 ==> result0.hash[k] == pkHash[k]
+//@   modifies nothing
+
+//@ func bchutil.newAddressScriptHashFromHash
+//@   requires net != nil
+//@   ensures len(scriptHash) != 20 ==> result0 == nil && err != nil
+//@   ensures len(scriptHash) == 20 ==> err == nil && result0 != nil && fresh(result0) && sameobj(result0.prefix, net.CashAddressPrefix) && result0.prefix.off == net.CashAddressPrefix.off && len(result0.prefix) == len(net.CashAddressPrefix)
+//@   ensures len(scriptHash) == 20 ==> forall k :: 0 <= k && k < 20 ==> result0.hash[k] == scriptHash[k]
+//@   modifies nothing
+
+//@ func bchutil.newAddressScriptHash32FromHash
+//@   requires net != nil
+//@   ensures len(scriptHash) != 32 ==> result0 == nil && err != nil
+//@   ensures len(scriptHash) == 32 ==> err == nil && result0 != nil && fresh(result0) && sameobj(result0.prefix, net.CashAddressPrefix) && result0.prefix.off == net.CashAddressPrefix.off && len(result0.prefix) == len(net.CashAddressPrefix)
+//@   ensures len(scriptHash) == 32 ==> forall k :: 0 <= k && k < 32 ==> result0.hash[k] == scriptHash[k]
+//@   modifies nothing
+
+//@ func bchutil.NewSlpAddressPubKeyHash
+//@   requires net != nil
+//@   ensures len(pkHash) != 20 ==> result0 == nil && err != nil
+//@   ensures len(pkHash) == 20 ==> err == nil && result0 != nil && fresh(result0) && sameobj(result0.prefix, net.SlpAddressPrefix) && result0.prefix.off == net.SlpAddressPrefix.off && len(result0.prefix) == len(net.SlpAddressPrefix)
+//@   ensures len(pkHash) == 20 ==> forall k :: 0 <= k && k < 20 ==> result0.hash[k] == pkHash[k]
+//@   modifies nothing
+
+//@ func bchutil.NewSlpAddressScriptHashFromHash
+//@   requires net != nil
+//@   ensures len(scriptHash) != 20 ==> result0 == nil && err != nil
+//@   ensures len(scriptHash) == 20 ==> err == nil && result0 != nil && fresh(result0) && sameobj(result0.prefix, net.SlpAddressPrefix) && result0.prefix.off == net.SlpAddressPrefix.off && len(result0.prefix) == len(net.SlpAddressPrefix)
+//@   ensures len(scriptHash) == 20 ==> forall k :: 0 <= k && k < 20 ==> result0.hash[k] == scriptHash[k]
+//@   modifies nothing
+
+//@ func bchutil.NewSlpAddressScriptHash32FromHash
+//@   requires net != nil
+//@   ensures len(scriptHash) != 32 ==> result0 == nil && err != nil
+//@   ensures len(scriptHash) == 32 ==> err == nil && result0 != nil && fresh(result0) && sameobj(result0.prefix, net.SlpAddressPrefix) && result0.prefix.off == net.SlpAddressPrefix.off && len(result0.prefix) == len(net.SlpAddressPrefix)
+//@   ensures len(scriptHash) == 32 ==> forall k :: 0 <= k && k < 32 ==> result0.hash[k] == scriptHash[k]
+//@   modifies nothing
+
+//@ func bchutil.newLegacyAddressPubKeyHash
+//@   ensures len(pkHash) != 20 ==> result0 == nil && err != nil
+//@   ensures len(pkHash) == 20 ==> err == nil && result0 != nil && fresh(result0) && result0.netID == netID
+//@   ensures len(pkHash) == 20 ==> forall k :: 0 <= k && k < 20 ==> result0.hash[k] == pkHash[k]
+//@   modifies nothing
+
+//@ func bchutil.newLegacyAddressScriptHashFromHash
+//@   ensures len(scriptHash) != 20 ==> result0 == nil && err != nil
+//@   ensures len(scriptHash) == 20 ==> err == nil && result0 != nil && fresh(result0) && result0.netID == netID
+//@   ensures len(scriptHash) == 20 ==> forall k :: 0 <= k && k < 20 ==> result0.hash[k] == scriptHash[k]
+//@   modifies nothing
+
+//@ func bchutil.NewAddressPubKey
+//@   requires net != nil
+//@   ensures err == nil ==> result0 != nil && fresh(result0) && result0.pubKey != nil && result0.pubKeyHashID == net.LegacyPubKeyHashAddrID
+//@   ensures err == nil ==> (len(serializedPubKey) == 33 || len(serializedPubKey) == 65)
+//@   ensures err == nil ==> result0.pubKeyFormat == ((serializedPubKey[0] == 2 || serializedPubKey[0] == 3) ? PKFCompressed : ((serializedPubKey[0] == 6 || serializedPubKey[0] == 7) ? PKFHybrid : PKFUncompressed))
+//@   ensures err != nil ==> result0 == nil
+//@   modifies nothing
+
+//@ func bchutil.DecodeAddress
+//@   requires defaultNet != nil
+//@   modifies nothing
+//@   assert after EqualFold#1: sameobj($arg0, addr) && $arg0.off == addr.off && len($arg0) == len(defaultNet.CashAddressPrefix) + 1 && len($arg1) == len(defaultNet.CashAddressPrefix) + 1 && $arg1[len($arg1) - 1] == ':' && forall k :: 0 <= k && k < len(defaultNet.CashAddressPrefix) ==> $arg1[k] == defaultNet.CashAddressPrefix[k]
+//@   assert after EqualFold#2: sameobj($arg0, addr) && $arg0.off == addr.off && len($arg0) == len(defaultNet.SlpAddressPrefix) + 1 && len($arg1) == len(defaultNet.SlpAddressPrefix) + 1 && $arg1[len($arg1) - 1] == ':' && forall k :: 0 <= k && k < len(defaultNet.SlpAddressPrefix) ==> $arg1[k] == defaultNet.SlpAddressPrefix[k]
+//@   assert after checkDecodeCashAddress#1: ($ret_EqualFold#1 || $ret_EqualFold#2) ==> sameobj($arg0, addr) && $arg0.off == addr.off && len($arg0) == len(addr)
+//@   assert after checkDecodeCashAddress#1: !($ret_EqualFold#1 || $ret_EqualFold#2) ==> len($arg0) >= len(defaultNet.CashAddressPrefix) + 1 && $arg0[len(defaultNet.CashAddressPrefix)] == ':' && forall k :: 0 <= k && k < len(defaultNet.CashAddressPrefix) ==> $arg0[k] == defaultNet.CashAddressPrefix[k]
+//@   assert after checkDecodeCashAddress#2: ($ret_EqualFold#3 || $ret_EqualFold#4) ==> sameobj($arg0, addr) && $arg0.off == addr.off && len($arg0) == len(addr)
+//@   assert after checkDecodeCashAddress#2: !($ret_EqualFold#3 || $ret_EqualFold#4) ==> len($arg0) >= len(defaultNet.SlpAddressPrefix) + 1 && $arg0[len(defaultNet.SlpAddressPrefix)] == ':' && forall k :: 0 <= k && k < len(defaultNet.SlpAddressPrefix) ==> $arg0[k] == defaultNet.SlpAddressPrefix[k]
+//@   assert after newAddressPubKeyHash#1: typ == AddrTypePayToPubKeyHash && $arg1 == defaultNet && sameobj($arg0, $ret0_checkDecodeCashAddress#1) && len($arg0) == 20
+//@   assert after newAddressScriptHashFromHash#1: typ == AddrTypePayToScriptHash && $arg1 == defaultNet && sameobj($arg0, $ret0_checkDecodeCashAddress#1) && len($arg0) == 20
+//@   assert after NewSlpAddressPubKeyHash#1: $ret2_checkDecodeCashAddress#2 == AddrTypePayToPubKeyHash && $arg1 == defaultNet && sameobj($arg0, $ret0_checkDecodeCashAddress#2) && len($arg0) == 20
+//@   assert after NewSlpAddressScriptHashFromHash#1: $ret2_checkDecodeCashAddress#2 == AddrTypePayToScriptHash && $arg1 == defaultNet && sameobj($arg0, $ret0_checkDecodeCashAddress#2) && len($arg0) == 20
+//@   assert after CheckDecode#1: sameobj($arg0, addr) && $arg0.off == addr.off && len($arg0) == len(addr)
+//@   assert after IsPubKeyHashAddrID#1: $arg0 == netID
+//@   assert after IsScriptHashAddrID#1: $arg0 == netID
+//@   assert after newLegacyAddressPubKeyHash#1: $arg1 == netID && sameobj($arg0, $ret0_CheckDecode#1) && $ret_IsPubKeyHashAddrID#1 && !$ret_IsScriptHashAddrID#1
+//@   assert after newLegacyAddressScriptHashFromHash#1: $arg1 == netID && sameobj($arg0, $ret0_CheckDecode#1) && $ret_IsScriptHashAddrID#1 && !$ret_IsPubKeyHashAddrID#1
+//@   assert after DecodeString#1: sameobj($arg0, addr) && len($arg0) == len(addr) && (len(addr) == 130 || len(addr) == 66)
+//@   assert after NewAddressPubKey#1: $arg1 == defaultNet && sameobj($arg0, $ret0_DecodeString#1)
